@@ -210,28 +210,54 @@ func InclusiveRangeContains(
 		return TrueValue
 	}
 
-	var result bool
-
 	// NOTE: the end is only part of the sequence if it is reachable from the start by steps,
 	// so it is checked like any other value between the start and the end
 	if !end.Equal(context, needleValue) &&
 		!isNeedleBetweenStartEndExclusive(context, needleValue, start, end) {
 
-		result = false
-	} else {
-		// needle is in between start and end.
-		// start + k * step should be equal to needle i.e. (needle - start) mod step == 0.
-		diff, ok := needleValue.Minus(context, start).(IntegerValue)
-		if !ok {
-			panic(errors.NewUnreachableError())
-		}
-
-		zeroValue := GetSmallIntegerValue(0, rangeType.ElementType)
-		mod := diff.Mod(context, step)
-		result = mod.Equal(context, zeroValue)
+		return FalseValue
 	}
 
-	return BoolValue(result)
+	// needle is in between start and end (inclusive).
+	// start + k * step should be equal to needle, i.e. needle and start must be congruent modulo step.
+	//
+	// NOTE: do not compute (needle - start) mod step, as the difference might not be representable
+	// in the element type. Compare the remainders instead, which are smaller in magnitude than step.
+
+	zeroValue := GetSmallIntegerValue(0, rangeType.ElementType)
+
+	needleRemainder, ok := needleValue.Mod(context, step).(IntegerValue)
+	if !ok {
+		panic(errors.NewUnreachableError())
+	}
+	startRemainder, ok := start.Mod(context, step).(IntegerValue)
+	if !ok {
+		panic(errors.NewUnreachableError())
+	}
+
+	if needleRemainder.Equal(context, startRemainder) {
+		return TrueValue
+	}
+
+	// The remainder has the sign of the dividend. If the remainders have different signs,
+	// they are congruent if they differ by exactly the magnitude of the step.
+	negativeRemainder, nonNegativeRemainder := needleRemainder, startRemainder
+	if bool(negativeRemainder.Less(context, zeroValue)) == bool(nonNegativeRemainder.Less(context, zeroValue)) {
+		return FalseValue
+	}
+	if !negativeRemainder.Less(context, zeroValue) {
+		negativeRemainder, nonNegativeRemainder = nonNegativeRemainder, negativeRemainder
+	}
+
+	// negativeRemainder + |step|, computed without overflow
+	var shifted NumberValue
+	if step.Less(context, zeroValue) {
+		shifted = negativeRemainder.Minus(context, step)
+	} else {
+		shifted = negativeRemainder.Plus(context, step)
+	}
+
+	return BoolValue(shifted.Equal(context, nonNegativeRemainder))
 }
 
 func getFieldAsIntegerValue(context ContainerElementContext, rangeValue *CompositeValue, name string) IntegerValue {
